@@ -3,7 +3,7 @@ import itertools
 
 import numpy as np
 
-from core.common import H, T0, compose, fm, hrs
+from core.common import H, T0, VERIF, compose, fm, hrs
 from core.pool import pmap
 from core.runner import viol
 from harness import acheck
@@ -33,9 +33,15 @@ def static_events():
     return ev
 
 
-def run_static(seq):
+def run_static(seq, limit=None):
     out = CountOutput("o", fm.Info(time=None, grid=fm.NoGrid(), units="m"), static=True)
     out.calls = []
+    if limit is not None:  # the rarely used per-slot memory limit: the single publication is spilled to disk
+        import os
+
+        loc = os.path.join(VERIF, "work", "C20_%d" % os.getpid())
+        os.makedirs(loc, exist_ok=True)
+        out.memory_limit, out.memory_location = limit, loc
     ins = {"s": fm.Input("s", fm.Info(time=None, grid=fm.NoGrid(), units="km"), static=True), "d": fm.Input("d", fm.Info(time=None, grid=fm.NoGrid(), units="m"), static=False)}
     for i in ins.values():
         out >> i
@@ -81,6 +87,11 @@ def run_static(seq):
                 bad.append(("pull_error:" + type(e).__name__, f"step {step} {ev}: {str(e)[:80]}"))
         if bad:
             break
+    if limit is not None:
+        import shutil
+
+        out.finalize()
+        shutil.rmtree(loc, ignore_errors=True)
     return bad
 
 
@@ -93,9 +104,17 @@ class Src(fm.TimeComponent):
     def _next_time(self):
         return self.time + H(self.step)
 
+    special = None  # "zero_weights": all weights are 0 at odd hours; "nan": the first value is NaN (weight 0) at odd hours
+
     def val(self, n):
         u, v = self.outs[n]
-        return v + float(hrs(self.time)) ** 2
+        h = float(hrs(self.time))
+        if self.special and int(h) % 2 == 1:
+            if n.startswith("w"):
+                return 0.0
+            if self.special == "nan" and n == "v0":
+                return float("nan")
+        return v + h**2
 
     def _initialize(self):
         for n, (u, v) in self.outs.items():
@@ -159,6 +178,7 @@ def run_merger(case):
         outs[f"v{k}"] = (u, 1.0 + k)
         outs[f"w{k}"] = ("", 0.5 + k)
     s = Src(outs, sstep)
+    s.special = case.get("special")
     w = WeightedSum([f"v{k}" for k in range(n)])
     snks = [Snk(f"K{j}", st) for j, st in enumerate(steps)]
     comps = {"S": s, "W": w, **{k.name: k for k in snks}}
@@ -182,12 +202,15 @@ def run_merger(case):
             dist = min(abs(t - cc) for cc in cands)
             oks = []
             for tp in [cc for cc in cands if abs(t - cc) == dist]:
-                want = sum((1.0 + i + tp**2) * FACT[u] * (0.5 + i + tp**2) for i, u in enumerate(units))
+                if case.get("special") and int(tp) % 2 == 1:
+                    want = float("nan") if case["special"] == "nan" else 0.0  # sum of value x weight, IEEE arithmetic: NaN x 0 = NaN
+                else:
+                    want = sum((1.0 + i + tp**2) * FACT[u] * (0.5 + i + tp**2) for i, u in enumerate(units))
                 oks.append(want)
             got_m = float(d.magnitude.ravel()[0]) * FACT.get(str(d.units), float("nan"))
             if str(d.units) not in units:
                 bad.append(("units", "", f"{k.name} t={t}: units {d.units} not among input units {units}"))
-            elif not any(np.isclose(got_m, wv, rtol=1e-9) for wv in oks):
+            elif not any(np.isclose(got_m, wv, rtol=1e-9, equal_nan=True) for wv in oks):
                 bad.append(("value", "", f"{k.name} t={t}: got {d} = {got_m} m, want {oks} m"))
     return bad
 
@@ -199,8 +222,8 @@ def run_case(case):
             res["n"] += 1
             if any(e[0] == "push" for e in seq) and any(e[0] == "pull" for e in seq):
                 res["nontrivial"] += 1
-            for clause, detail in run_static(seq):
-                res["violations"].append(viol(dict(kind="static", clause=clause), f"static slot sequence {seq}: {clause} {detail}", dict(kind="static", seqs=[seq])))
+            for clause, detail in run_static(seq, case.get("limit")):
+                res["violations"].append(viol(dict(kind="static", clause=clause), f"static slot sequence {seq} (memory limit {case.get('limit')}): {clause} {detail}", dict(kind="static", seqs=[seq], limit=case.get("limit"))))
         res["counters"]["static_sequences"] = len(case["seqs"])
         res["sample"] = dict(kind="static", seq=case["seqs"][-1])
     else:
@@ -259,6 +282,8 @@ def run(tier, seed, agg):
     ev = static_events()
     seqs = [list(s) for n in range(1, depth + 1) for s in itertools.product(ev, repeat=n)]
     cases = [dict(kind="static", seqs=seqs[i : i + 2000]) for i in range(0, len(seqs), 2000)]
+    short = [sq for sq in seqs if len(sq) <= 3]
+    cases += [dict(kind="static", seqs=short[i : i + 500], limit=0) for i in range(0, len(short), 500)]
     for n in (1, 2, 3):
         for units in itertools.product(["m", "km", "mm"], repeat=n):
             for steps in ([1], [2], [1, 1], [1, 2], [2, 1], [2, 2], [1, 3], [3, 1]):
@@ -266,6 +291,11 @@ def run(tier, seed, agg):
                     names = ["S", "W"] + [f"K{j}" for j in range(len(steps))]
                     for order in (names, names[::-1]):
                         cases.append(dict(kind="merger", units=list(units), steps=steps, src_step=sstep, order=order, end=6))
+    for special in ("zero_weights", "nan"):
+        for n in (1, 2):
+            for steps in ([1], [1, 1]):
+                names = ["S", "W"] + [f"K{j}" for j in range(len(steps))]
+                cases.append(dict(kind="merger", units=["m"] * n, steps=steps, src_step=1, order=names, end=6, special=special))
     k = seed % len(cases)
     for r in pmap(run_case, cases[k:] + cases[:k]):
         agg.add(r)
